@@ -157,13 +157,35 @@ var vhC05Tpl = []string{
 	"{% include v ignore missing %}", "{% include 'inc' with {'q': v} only %}", "{% extends v %}", "{% import v as m %}", "{{ include(v) }}", "{{ constant(v) }}", "{{ v matches '/a/' }}",
 }
 
+// templates that fail in the middle of a sub-render (C05.failures)
+var vhC05Fail = []string{
+	"{% include 'inc' with {'q': v|boom} %}", "{% include 'inc' with {'a': 1, 'q': v[i][j]} only %}", "{% for x in v %}{% include 'inc' with {'q': x|boom} %}{% endfor %}",
+	"{{ include('inc', {'q': v|boom}) }}", "{% include 'failing' with {'q': v} %}", "{% include 'failing' %}{% include 'inc' %}",
+	"{% import 'lib' as l %}{{ l.m(v|boom) }}", "{% import 'lib' as l %}{{ l.f(v) }}", "{% from 'lib' import f %}{{ f(v) }}{{ f(v) }}", "{% extends 'failing-base' %}{% block b %}{{ v|boom }}{% endblock %}",
+	"{% apply upper %}{{ v|boom }}{% endapply %}", "{% spaceless %}{{ v|boom }}{% endspaceless %}", "{% for x in v %}{% for y in v %}{{ y|boom }}{% endfor %}{% endfor %}",
+	"{% if v|boom %}{% endif %}", "{% block b %}{{ v|boom }}{% endblock %}", "{% macro k(a) %}{{ a|boom }}{% endmacro %}{{ k(v) }}{{ _self.k(v) }}",
+}
+
 // VH_C05_Render: every template of the corpus on every value shape, with symbolic integer arguments.
-func VH_C05_Render() {
+func VH_C05_Render() { vhC05Run(vhC05Tpl, len(vhC05Shapes)) }
+
+// VH_C05_Failures: a render that fails while a sub-render (include, embed, macro call, parent
+// template, loop, apply, capture) is prepared or under way leaves no trace: no panic, and a render
+// four contexts deep works afterwards. Value shapes: the first 7 and list/string/nil.
+func VH_C05_Failures() { vhC05Run(vhC05Fail, -1) }
+
+func vhC05Run(tpls []string, nshapes int) {
 	t := symParam("T", -1)
 	if t < 0 {
-		t = symChoice(len(vhC05Tpl))
+		t = symChoice(len(tpls))
 	}
-	k := symChoice(len(vhC05Shapes))
+	vhC05Tpl := tpls
+	var k int
+	if nshapes < 0 {
+		k = []int{7, 12, 13, 17}[symChoice(4)]
+	} else {
+		k = symChoice(nshapes)
+	}
 	symTag("tpl:" + vhC05Tpl[t])
 	symTag("shape:" + vhC05Shapes[k])
 	v := vhC05Value(k)
@@ -174,17 +196,27 @@ func VH_C05_Render() {
 	symAssume(j >= -2 && j <= 2)
 	bi, bj := symInt(), symInt()
 	e := New()
+	e.AddFilter("boom", func(v interface{}, a ...interface{}) (interface{}, error) { return nil, vhErrBoom })
 	e.RegisterString("inc", "i{{ q }}")
+	e.RegisterString("failing", "f{{ q|boom }}")
+	e.RegisterString("failing-base", "{{ q|boom }}{% block b %}{% endblock %}")
+	e.RegisterString("lib", "{% macro m(a) %}{{ a }}{% endmacro %}{% macro f(a) %}{{ a|boom }}{% endmacro %}")
+	e.RegisterString("deep3", "{% macro w(a) %}{% include 'inc' with {'q': a} %}{% endmacro %}{{ w(q) }}")
+	e.RegisterString("deep2", "{% for z in [1] %}{% include 'deep3' %}{% endfor %}")
+	e.RegisterString("deep1", "{% include 'deep2' %}|{% include 'deep2' with {'q': 'R'} %}")
 	err := e.RegisterString("t", vhC05Tpl[t])
 	if err != nil {
 		symCover("rejected-at-parse") // an error is an acceptable answer for C05
 		return
 	}
-	_, _ = e.Render("t", map[string]interface{}{"v": v, "i": i, "j": j, "I": bi, "J": bj})
+	_, rerr := e.Render("t", map[string]interface{}{"v": v, "i": i, "j": j, "I": bi, "J": bj})
 	symCover("rendered")
-	// the engine stays usable
-	out, err := e.Render("inc", map[string]interface{}{"q": "Q"})
-	symAssert(err == nil && out == "iQ", "engine-usable-afterwards")
+	if rerr != nil {
+		symCover("render-failed")
+	}
+	// the engine stays usable: a render four contexts deep (include, loop, include, macro, include)
+	out, err := e.Render("deep1", map[string]interface{}{"q": "Q"})
+	symAssert(err == nil && out == "iQ|iR", "engine-usable-afterwards")
 }
 
 // VH_C05_Range: range() terminates and has the right number of elements: whenever the mathematical
